@@ -1,5 +1,5 @@
 From Coq Require Import QArith Qabs Lqa Sorting.Permutation.
-From ZV Require Import Lib.Base Generated.ScoreConsts Model.Score Model.ScoreBM25.
+From ZV Require Import Lib.Base Generated.ScoreConsts Model.Score Model.ScoreBM25 Proofs.Score.
 Open Scope Q_scope.
 
 Lemma tf_denominator_pos L f : 0 <= L -> (0 <= f)%Z -> 0 < c_bm25_k * (1 - c_bm25_b + c_bm25_b * L) + inject_Z f.
@@ -69,4 +69,15 @@ Proof.
   set (s := bm25_sum L tfs) in *. set (m := max_weight ws) in *.
   set (B := (c_bm25_k + 1) * inject_Z (Z.of_nat (length tfs))) in *.
   destruct (eps_one m); nra.
+Qed.
+
+(** every binary64 product of boosts, after the cap of setScoreWeight: the BM25 score stays within
+    (k+1) * #terms * maxBoostWeight — in particular a zero sum (a low-priority file whose term frequencies
+    were divided down to 0) times the weight is 0, not the NaN that 0 * Inf was before /repo b74fc3f *)
+Corollary bm25_score_finite_every_boost L tfs (xws : list xweight) :
+  0 <= L -> Forall (fun f => (0 <= f)%Z) tfs ->
+  0 <= bm25_score L tfs (map eff_weight xws) <= (c_bm25_k + 1) * inject_Z (Z.of_nat (length tfs)) * c_maxBoostWeight.
+Proof.
+  intros HL Hf. apply bm25_score_bounds; [exact HL|exact Hf|exact maxBoostWeight_ge_1|].
+  apply Forall_forall. intros w Hw. apply in_map_iff in Hw as [x [E _]]. subst w. apply eff_weight_le.
 Qed.
